@@ -359,9 +359,9 @@ OUTSIDE["C03"] = ("unforgeability (cryptography); byte-level mutation sweeps ove
                   "joiner-side validation of Welcome / GroupInfo / tree; update-path shape validation (P30, P33); public-message "
                   "authentication for proposal / commit content and for external / new-member senders (application content from members is covered); "
                   "signature keys taken from the ratchet tree instead of a key list; Client / ExternalClient entry points")
-OUTSIDE["C05"] = ("the shipped out_of_order ratchet (skipped keys kept in a map: P16, P19, P20): out-of-order delivery and 'each decrypted "
-                  "exactly once' for skipped generations; the window interior (gap 3..1024) beyond the unwinding bound; secret-tree "
-                  "consumption; ciphertext-level replay (P17); save/reload mid-stream; KDF collisions")
+OUTSIDE["C05"] = ("the real B-tree behind the out_of_order history (replaced by an associative-array model, stated as a stub); more than 2 parked "
+                  "keys; the window interior (gap 3..1024) beyond the unwinding bound; secret trees of more than 2 leaves; "
+                  "ciphertext-level replay (P17); save/reload mid-stream (the history's encoding iterates the map); KDF collisions")
 OUTSIDE["C04"] = ("everything at Group level: signer swap in apply_update_path, pending_reinit, key consumed before the AEAD check in "
                   "CiphertextProcessor::open, snapshot equality (not decidable here; suspicions listed in DESIGN §5)")
 for nm in ["c03_content_aad_g0_a0", "c03_content_aad_g1_a2", "c03_content_aad_g2_a1"]:
@@ -399,6 +399,27 @@ H("c05_ratchet_request_beyond_window_refused", "c05_ratchet_request.rs", ["C05",
   stubs=ZSTUBS + _CUT, timeout_s=900,
   what="every request more than 1024 generations ahead is refused and leaves (secret, generation) unchanged",
   symbolic="ratchet generation, requested generation any u32 beyond the window", bounds="all", assumes=["generation <= 2^32-2051"])
+
+_BT = ["stub (environment model): alloc::collections::BTreeMap::{new, insert, remove_entry, remove, get, len} -> models::btmap, an associative "
+       "array of 4 fixed slots with the finite-map contract (insert overwrites / returns the old value, remove deletes / returns, get reads, "
+       "len counts); an assertion fails if a harness needs more than 4 live entries; iteration is NOT modelled (the real B-tree does not "
+       "terminate under CBMC: probes P16, P19, P20)"]
+H("c05_btmap_model_sanity", "c05_ooo.rs", ["C05", "C04"], "quick", unwind=6, mem="L", stubs=_BT,
+  what="the container model itself: two inserts and a removal under symbolic keys behave as a finite partial function (validation of the "
+       "environment stub the next harness relies on)", symbolic="two inserted keys, one removed key: any u32", bounds="<= 2 entries")
+H("c05_btmap_layout_sanity", "c05_ooo.rs", ["C05", "C04"], "quick", unwind=3, mem="L", stubs=[],
+  what="layout assumption of the container model, checked on the REAL BTreeMap (no stubs): word 0 of the value is the root niche (null when "
+       "empty), word 2 the length - so a model map looks empty to the real drop glue", symbolic="none (one concrete insertion)", bounds="-")
+H("c05_ooo_skip_any_replay", "c05_ooo.rs", ["C05", "C04"], "quick", unwind=6, mem="H", stubs=ZSTUBS + _CUT + _BT + ["model: fresh-output CipherSuiteProvider (no log)"],
+  timeout_s=2400,
+  what="the SHIPPED out_of_order ratchet (SecretKeyRatchet::get_message_key with its history of skipped keys): a message 0..2 generations ahead "
+       "parks exactly the skipped generations' keys; then ANY generation q is requested: a parked key is handed out exactly once, carries "
+       "generation q, leaves (secret, generation) untouched and is gone afterwards (replay of the late message -> KeyMissing); every other "
+       "q <= current is refused with KeyMissing and changes nothing (history, secret, generation bit-identical: C04's clause); asking the "
+       "in-order generation twice is refused",
+  symbolic="ratchet generation any u32 <= 2^32-2001, gap 0..2, requested generation q any u32 <= current, ratchet secret bytes",
+  bounds="<= 2 parked keys; requests beyond the current generation after parking are outside (window interior: unwinding bound)",
+  assumes=["gap <= 2", "q <= generation of the message that overtook"])
 
 # --------------------------------------------------------------------------------------- C16 / C11 / C03a
 OUTSIDE["C16"] = ("the observer tracking roster / tree / context over histories, proposals it issues, snapshot/restore, signature and "
@@ -443,8 +464,9 @@ CLAIMS["C13"] = dict(text="Dataflow equality with the RFC 9420 formulas, decided
                           "call): label encoding incl. varint boundaries, ratchet step for EVERY generation, ratchet initialisation, welcome key/nonce, "
                           "path secrets, sender-data key, empty PSK chain. Holds for every hash/KDF/MAC that is a function.", note=_NOTE)
 CLAIMS["C05"] = dict(text="Reuse-guard XOR for all nonces/guards; per-generation key/nonce/next-secret derivations distinct and RFC-shaped for every generation; "
-                          "handshake vs application separation; (thorough) ratchet request logic for all u32 generation pairs in the build without "
-                          "out_of_order. The shipped out-of-order history is outside.", note=_NOTE)
+                          "handshake vs application separation; ratchet request logic for all u32 generation pairs in the build without out_of_order AND in the "
+                          "shipped out_of_order build (skipped keys parked, handed out exactly once, replay refused; <= 2 parked keys; the B-tree container "
+                          "replaced by an associative-array model through kani::stub).", note=_NOTE)
 CLAIMS["C03"] = dict(text="Kernels only: admission gate (version / group id / epoch / encryption) for all inputs; AAD layouts bind every clear field; "
                           "zero-padding check; padded sizes; sender-data sample. Not a claim about forgery resistance end to end.", note=_NOTE)
 CLAIMS["C16"] = dict(text="Bounded model checking of the observer's admission gate for EVERY (epoch, jitter, message epoch, version, group id byte, content "
@@ -452,8 +474,8 @@ CLAIMS["C16"] = dict(text="Bounded model checking of the observer's admission ga
                           "histories is outside.", note=_NOTE)
 CLAIMS["C11"] = dict(text="One clause: a handshake message (proposal or commit, public or private) is admitted only for the current epoch - decided for all "
                           "epochs/versions/group ids. The pending-commit state machine is outside.", note=_NOTE)
-CLAIMS["C04"] = dict(text="One clause, one build: failed key lookups (past generation / beyond the window) leave the ratchet bit-identical - build without "
-                          "out_of_order, all u32 generation pairs.", note=_NOTE)
+CLAIMS["C04"] = dict(text="One clause: failed key lookups (past generation / beyond the window / key already used) leave the ratchet - secret, generation and, in "
+                          "the shipped out_of_order build, the history of parked keys - unchanged; all u32 generation pairs, <= 2 parked keys.", note=_NOTE)
 
 
 NOT_APPLICABLE.update({
